@@ -50,6 +50,10 @@ def _c10_vm_call(toks, blobs):
         return "ATag %s %s" % (toks[1], toks[2])
     if k == "untag":
         return "AUntag %s" % toks[1]
+    if k == "tagdigest":
+        return "ATagDigest %s" % toks[1]
+    if k == "untagdigest":
+        return "AUntagDigest %s" % toks[1]
     if k == "delete":
         return "ADelete %s []" % toks[1]
     if k == "saveindex":
